@@ -586,8 +586,7 @@ def band_sizes(per_taxon_log: float, thorough: bool):
         targets = ([-40.0, -70.0, -84.0, -88.0, -90.0, -92.0, -94.0, -96.0, -100.0, -130.0, -300.0, -660.0, -690.0]
                    + [-700.0 - 1.0 * i for i in range(49)] + [-750.0, -760.0, -800.0])
     else:
-        targets = [-75.0, -90.0, -93.0, -96.0, -120.0,
-                   -685.0, -709.0, -722.0, -730.0, -735.0, -739.0, -742.0, -744.2, -748.0, -790.0]
+        targets = [-90.0, -96.0, -709.0, -722.0, -730.0, -735.0, -739.0, -742.0, -744.2, -748.0]
     return sorted({max(4, int(round(-t / per_taxon_log))) for t in targets})
 
 
@@ -824,17 +823,18 @@ def sweep(ck: Check, drv, budget_s: float):
 # ----------------------------------------------------------------------------------------------
 
 
-def mixed_sites(rng, n: int, n_band: int, frac: float):
-    """per-taxon strings: three constant columns (A, C, G: high likelihood on short branches) followed by `n_band`
-    columns that are 'A' except for 'C'/'G'/'T' at a random subset of about frac*n tips (each isolated odd tip costs
-    one substitution: on short branches the site likelihood is ~ (t/3)^(number of odd tips))"""
-    cols = ["A" * n, "C" * n, "G" * n]
+def mixed_sites(rng, n: int, n_band: int, m: int, weights=(1, 1, 1)):
+    """per-taxon strings: three constant columns (A, C, G: site likelihood ~ pi on short branches) REPEATED weights[j]
+    times (they compress to three patterns with those weights: one heavy conserved pattern moves every mean/sum
+    statistic away from the worst pattern), followed by `n_band` columns that are 'A' except for 'C'/'G'/'T' at `m`
+    random tips (each isolated odd tip costs one substitution: site likelihood ~ (t/3)^m on short branches)"""
+    cols = ["A" * n] * weights[0] + ["C" * n] * weights[1] + ["G" * n] * weights[2]
     ms = []
     for b in range(n_band):
-        m = max(2, int(round(frac * n * (1.0 - 0.04 * b))))  # later band columns a little shallower
-        odd = set(rng.sample(range(n), m))
+        mb = max(2, int(round(m * (1.0 - 0.04 * b))))  # later band columns a little shallower
+        odd = set(rng.sample(range(n), min(mb, n)))
         cols.append("".join(rng.choice("CGT") if i in odd else "A" for i in range(n)))
-        ms.append(m)
+        ms.append(mb)
     return ["".join(c[i] for c in cols) for i in range(n)], ms
 
 
@@ -872,49 +872,57 @@ def tune_t(drv, base, m: int, target: float, t_guess=None):
 
 
 def mixed_sweep(ck: Check, drv, budget_s: float):
+    """alignments that are heterogeneous ACROSS SITE PATTERNS: conserved patterns (site likelihood ~ pi, non-uniform
+    weights, one of them heavy) plus 1-3 patterns placed deliberately in each critical band of the smallest site
+    log-likelihood: just above the 1e-40 switch threshold (-88), just below it (-97), between threshold and the denormal
+    range (-400), inside the denormal range (-715 ... -744), flushed to exactly 0 in float64 (-760). The number of odd
+    tips of the band pattern is chosen for the band, then the common branch length is tuned on the exact reference.
+    Whatever statistic over patterns a switch test uses (min, mean, sum, max), here mean != worst: with the heavy
+    weights the weighted MEAN site log-likelihood stays near -2 ... -15 while the WORST pattern is in the band."""
     rng = ck.rng
     thorough = ck.thorough()
     fails, refs = [], {}
     t_start = time.time()
-    # (shape, n, model, K, tip_states, number of band columns)
-    configs = [
-        ("balanced", 256, "JC69", 4, False, 1),
-        ("random", 300, "HKY", 4, True, 2),
-        ("balanced", 256, "HKY", 1, False, 1),
-    ]
+    # (shape, n, model, K, tip_states, number of band columns, weights of the three conserved patterns, targets)
     if thorough:
-        configs += [
-            ("random", 400, "JC69", 4, True, 3),
-            ("balanced", 512, "GTR", 4, False, 2),
-            ("random", 350, "HKY", 4, False, 1),
-            ("balanced", 256, "JC69", 1, True, 1),
+        all_t = [-88.0, -97.0, -200.0, -400.0, -650.0, -712.0, -726.0, -733.0, -738.0, -741.5, -744.0, -760.0]
+        configs = [
+            ("balanced", 256, "JC69", 4, False, 1, (40, 25, 1), all_t),
+            ("random", 300, "HKY", 4, True, 2, (1, 7, 30), all_t),
+            ("balanced", 256, "HKY", 1, False, 1, (1, 1, 1), all_t),
+            ("random", 400, "JC69", 4, True, 3, (3, 1, 60), all_t[::2]),
+            ("balanced", 512, "GTR", 4, False, 2, (60, 1, 1), all_t[1::2]),
+            ("random", 350, "HKY", 4, False, 1, (1, 1, 1), all_t[::2]),
+            ("caterpillar", 200, "JC69", 1, True, 1, (20, 20, 20), all_t[1::2]),
+            ("caterpillar", 256, "HKY", 4, False, 2, (1, 50, 2), all_t[::3]),
         ]
-    targets = [-712.0, -726.0, -733.0, -738.0, -741.5, -744.0] if thorough else [-720.0, -736.0, -742.5]
-    if not thorough:
-        configs = configs[:2]
-    for ci, (shape, n, model, K, tipst, n_band) in enumerate(configs):
+    else:
+        configs = [
+            ("balanced", 256, "JC69", 4, False, 1, (40, 25, 1), [-88.0, -97.0, -400.0, -738.0, -743.0]),
+            ("random", 300, "HKY", 4, True, 2, (1, 7, 30), [-728.0, -742.0, -760.0]),
+        ]
+    for ci, (shape, n, model, K, tipst, n_band, wts, targets) in enumerate(configs):
         if time.time() - t_start > budget_s:
             ck.notes.append(f"mixed sweep budget reached before configuration {ci}")
             break
-        sites, ms = mixed_sites(rng, n, n_band, 0.3)
-        base = {"shape": shape, "model": model, "K": K, "tip_states": tipst, "seed_shape": rng.randrange(10 ** 6),
-                "sites": sites, "n": n, "mixed": True, "t": 0.0}
-        t_prev = None
-        tuned = []
-        for target in targets:
-            t, got = tune_t(drv, base, ms[0], target, t_prev)
-            if t is None:
-                ck.notes.append(f"mixed: tuning failed for {shape}/{model} target {target}")
-                continue
-            t_prev = t
-            tuned.append((target, t, got))
-        ck.extra.setdefault("mixed_alignments", {})[f"{shape}/n={n}/{model}/K={K}/{'tip-states' if tipst else 'tip-partials'}"] = {
-            "columns": "A*n, C*n, G*n + %d band column(s) with %s odd tips" % (n_band, ms),
-            "tuned": [{"target_min_site_log": a, "branch_length": b, "min_site_log": c} for a, b, c in tuned]}
-        for ti, (target, t, got) in enumerate(tuned):
+        seed_shape = rng.randrange(10 ** 6)
+        t_prev, mid_cfg = 1.0e-4, None
+        for ti, target in enumerate(targets):
             if time.time() - t_start > budget_s:
                 ck.notes.append(f"mixed sweep budget reached in configuration {ci}")
                 break
+            m = max(2, min(n - 1, int(round(target / math.log(1.0e-4 / 3.0)))))
+            sites, ms = mixed_sites(rng, n, n_band, m, wts)
+            base = {"shape": shape, "model": model, "K": K, "tip_states": tipst, "seed_shape": seed_shape,
+                    "sites": sites, "n": n, "mixed": True, "t": 0.0, "weights": list(wts), "band_target": target}
+            t, got = tune_t(drv, base, ms[0], target, t_prev)
+            if t is None:
+                ck.notes.append(f"mixed: tuning failed for {shape}/{model} target {target} (got {got})")
+                continue
+            t_prev = t
+            ck.extra.setdefault("mixed_alignments", {}).setdefault(
+                f"{shape}/n={n}/{model}/K={K}/{'tip-states' if tipst else 'tip-partials'}/weights={list(wts)}", []).append(
+                {"target_min_site_log": target, "odd_tips": ms, "branch_length": t, "min_site_log": got})
             cfg = dict(base, t=t)
             h1 = Hist(cfg)
             if ti == 0:
@@ -924,19 +932,18 @@ def mixed_sweep(ck: Check, drv, budget_s: float):
             h2 = Hist(cfg)
             h2.preset()
             eval_and_check(ck, drv, h2, "mixed-preset", refs, fails, group="mixed")
-            if ti % 2 == 1:
+            if thorough and ti % 2 == 1:
                 h3 = Hist(dict(cfg, tip_states=not tipst))
                 eval_and_check(ck, drv, h3, "mixed-fresh-other-tip-path", refs, fails, group="mixed")
-        # batch: sample 0 in the band, sample 1 flushed to zero (shorter branches), sample 2 comfortably normal
-        if tuned and time.time() - t_start <= budget_s:
-            target, t, got = tuned[len(tuned) // 2]
-            cfgb = dict(base, t=t, batch=[1.0, 0.5, 4.0])
-            hb = Hist(cfgb)
+            if -745.0 < target < -720.0:
+                mid_cfg = cfg
+        # batches on a band alignment: (band, flushed to zero, normal) and (band, normal, normal): no sample is -inf
+        if mid_cfg is not None and time.time() - t_start <= budget_s:
+            hb = Hist(dict(mid_cfg, batch=[1.0, 0.5, 4.0]))
             eval_and_check(ck, drv, hb, "mixed-batch-fresh", refs, fails, group="mixed")
-            eval_and_check(ck, drv, hb, "mixed-batch-repeat", refs, fails, group="mixed")
-            # and a batch in which NO sample has flushed to zero: band sample next to normal samples
-            cfgc = dict(base, t=t, batch=[1.0, 4.0, 9.0])
-            hc = Hist(cfgc)
+            if thorough:
+                eval_and_check(ck, drv, hb, "mixed-batch-repeat", refs, fails, group="mixed")
+            hc = Hist(dict(mid_cfg, batch=[1.0, 4.0, 9.0]))
             eval_and_check(ck, drv, hc, "mixed-batch-band+normal", refs, fails, group="mixed")
     return fails
 
@@ -1560,8 +1567,16 @@ def run(ck: Check):
     ]
     ck.trusted += ["torch matmul/max/log/cat/broadcasting", "dendropy newick parser (trees are built through parse_tree)",
                    "Lean Rat/Nat (GMP) arithmetic in the compiled driver", "mpmath (cross-check of the reference)"]
-    ok, broken = ck.lean_side({}, ["TTModel.C03_Rescale", "TTProofs.Props.C03", "TTProofs.Props.C03_Grad",
-                                   "TTProofs.Props.C03_Trees", "drv_c03"], PROPS)
+    sys.path.insert(0, str(VERIF / "harness" / "translators"))
+    import tr_c03_underflow
+
+    gen_src, tr_ok, tr_note, tr_fields = tr_c03_underflow.translate(REPO)
+    ck.extra["underflow_translator"] = {"recognised": tr_ok, "fields": tr_fields, "note": tr_note}
+    if not tr_ok:
+        ck.notes.append("translator tr_c03_underflow: " + tr_note)
+    ok, broken = ck.lean_side({"TTGen/C03_Underflow.lean": gen_src},
+                              ["TTModel.C03_Rescale", "TTGen.C03_Underflow", "TTProofs.Props.C03", "TTProofs.Props.C03_Grad",
+                               "TTProofs.Props.C03_Trees", "drv_c03"], PROPS)
     # companion files Props/C03_Grad.lean, Props/C03_Trees.lean are built and audited by common.lean_side
     drv = ck.driver("drv_c03")
     fails = []
